@@ -1,10 +1,49 @@
 (* C06 — A file cut short by a crash reads as a prefix of the complete file.
-   Statements only (proofs: Proofs/TruncProofs.v).  See the end of the file for
-   what is partial. *)
+   Statements only (proofs: Proofs/TruncProofs.v; the part that views a file as
+   a list of segments is in Proofs/IndexProofs.v, where that view is defined).
+
+   The composed statement of DESIGN.md (truncation_prefix) is NOT proved.  What
+   is proved, each closed under the global context:
+
+   lexing       read_before_cut_unchanged
+   chunk count  truncated_chunk_count, calculate_chunks_count
+   final chunk  contig_final_structure, contig_final_le           (contiguous: whole leading
+                                                                    channels, a partial one, nothing)
+                interleaved_final_le, interleaved_whole_rows,
+                interleaved_keeps_whole_rows, prop_final_lookup    (interleaved: whole rows)
+                daqmx_final_structure, daqmx_final_le              (DAQmx: whole rows per buffer,
+                                                                    buffers in order)
+                final_chunk_lengths_le                              (all non-DAQmx rules: 0 <= v <= n)
+   lengths      seg_values_truncated_le, calculate_chunks_truncated_le
+                                                                   (per segment: all complete chunks
+                                                                    kept, never more than complete)
+   status       cut_segment_status, cut_segment_status_unknown, md_loop_stops   (one segment)
+                truncation_prefix_partial                           (whole file, see below)
+
+   truncation_prefix_partial: for every well-formed file given as a segment list
+   ([segs_ok]: canonical metadata, exact offsets) and EVERY cut offset k, if the
+   metadata pass over the cut file succeeds then it finds exactly the segments
+   [cut_expected 0 segs k] (positions, data positions, ends clamped to the cut,
+   incomplete flags): segments before the cut unchanged, the segment whose raw
+   data is cut ends at the cut, a segment whose lead-in or metadata is cut is
+   dropped with everything after it; for explicit lengths the last segment is
+   flagged incomplete exactly when the cut is inside some segment's raw data
+   and no earlier segment is flagged.
+
+   MISSING for truncation_prefix (shown by the check's exhaustive cutting only):
+   - that reading the cut file does not fail (rd_all = Ok) and that the values
+     decoded from the surviving bytes are a prefix of the complete values
+     (rd_eager / Layout side), len(channel) = number of values returned, and
+     lazy = eager;
+   - the per-segment length bound composed over a whole file (it needs the
+     object-list invariants NoDup paths / number_values >= 0 through
+     read_segment_objects, and that the complete segment holds whole chunks);
+   - for DAQmx the bound is per raw buffer (daqmx_final_le); an object with
+     fewer values than its buffer's rows is not bounded by its own count. *)
 From Coq Require Import List ZArith.
 Import ListNotations.
 From NpTdms Require Import Base.Bytes Base.Res Model.Tokens Model.SegState Model.Layout Model.Reader
-     Proofs.TruncProofs.
+     Proofs.TruncProofs Proofs.IndexProofs.
 Local Open Scope Z_scope.
 
 (* reading a prefix of a file: any read that ends before the cut sees the same bytes *)
@@ -12,4 +51,219 @@ Theorem read_before_cut_unchanged : forall (bs : bytes) (k pos n : Z),
     0 <= pos -> 0 <= n -> pos + n <= k -> read_at pos n (take k bs) = read_at pos n bs.
 Proof. exact read_at_take. Qed.
 
+(* ---- A1 ------------------------------------------------------------------- *)
+
+Theorem truncated_chunk_count : forall csize total total',
+    0 < csize -> 0 <= total' < total -> total mod csize = 0 ->
+    nchunks_of total' csize <= total / csize /\
+    0 <= total' / csize < total / csize /\
+    (total' mod csize <> 0 -> nchunks_of total' csize = 1 + total' / csize) /\
+    (total' mod csize = 0 -> nchunks_of total' csize = total' / csize).
+Proof. exact TruncProofs.truncated_chunk_count. Qed.
+
+Theorem calculate_chunks_count : forall toc inc objs total csize n fin,
+    chunk_size objs = Ok csize -> 0 < csize -> 0 <= total ->
+    calculate_chunks toc inc objs total = Ok (n, fin) ->
+    n = nchunks_of total csize /\
+    (total mod csize = 0 -> fin = None) /\
+    (total mod csize <> 0 ->
+     exists f, fin = Some f /\ final_chunk_lengths toc inc objs csize (total mod csize) = Ok f).
+Proof. exact TruncProofs.calculate_chunks_count. Qed.
+
+(* ---- A2 ------------------------------------------------------------------- *)
+
+Theorem contig_final_structure : forall objs rem,
+    NoDup (map so_path (data_objs objs)) ->
+    (forall o, In o (data_objs objs) -> 0 <= so_nvals o) ->
+    0 <= rem ->
+    exists pre rest,
+      data_objs objs = pre ++ rest /\
+      0 <= rem - zsum (map obytes pre) /\
+      (pre <> [] -> zsum (map obytes pre) < rem) /\
+      (forall o, In o pre -> alookup (so_path o) (contig_final objs rem []) = Some (so_nvals o)) /\
+      match rest with
+      | [] => True
+      | o :: post =>
+        rem - zsum (map obytes pre) <= obytes o /\
+        alookup (so_path o) (contig_final objs rem [])
+        = Some ((rem - zsum (map obytes pre)) / osz o) /\
+        forall o', In o' post -> alookup (so_path o') (contig_final objs rem []) = None
+      end.
+Proof. exact TruncProofs.contig_final_structure. Qed.
+
+Theorem contig_final_le : forall objs rem,
+    NoDup (map so_path (data_objs objs)) ->
+    (forall o, In o (data_objs objs) -> 0 <= so_nvals o) ->
+    0 <= rem ->
+    (forall o, In o (data_objs objs) ->
+               0 <= lookup0 (so_path o) (contig_final objs rem []) <= so_nvals o) /\
+    zsum (map (fun o => lookup0 (so_path o) (contig_final objs rem []) * osz o) (data_objs objs))
+    <= rem.
+Proof. exact TruncProofs.contig_final_le. Qed.
+
+(* element sizes are positive, so the hypothesis "sizes positive" is discharged *)
+Theorem element_size_positive : forall o, 0 < osz o.
+Proof. exact osz_pos. Qed.
+
+(* ---- A3 ------------------------------------------------------------------- *)
+
+Theorem interleaved_final_le : forall nvals rem csize,
+    0 <= nvals -> 0 <= rem < csize ->
+    0 <= nvals * rem / csize <= nvals /\ (0 < nvals -> nvals * rem / csize < nvals).
+Proof. exact TruncProofs.interleaved_final_le. Qed.
+
+Theorem interleaved_whole_rows : forall n width rem,
+    0 < n -> 0 < width -> n * rem / (n * width) = rem / width.
+Proof. exact TruncProofs.interleaved_whole_rows. Qed.
+
+Theorem prop_final_lookup : forall objs csize rem o,
+    NoDup (map so_path (data_objs objs)) -> In o (data_objs objs) ->
+    alookup (so_path o) (prop_final objs csize rem) = Some (so_nvals o * rem / csize).
+Proof. exact TruncProofs.prop_final_lookup. Qed.
+
+Theorem interleaved_keeps_whole_rows : forall objs n rem o,
+    0 < n ->
+    NoDup (map so_path (data_objs objs)) ->
+    (forall o, In o (data_objs objs) -> so_nvals o = n /\ so_dsize o = n * osz o) ->
+    In o (data_objs objs) ->
+    let width := zsum (map osz (data_objs objs)) in
+    zsum (map so_dsize (data_objs objs)) = n * width /\
+    alookup (so_path o) (prop_final objs (n * width) rem) = Some (rem / width).
+Proof. exact TruncProofs.interleaved_keeps_whole_rows. Qed.
+
+(* ---- A4 ------------------------------------------------------------------- *)
+
+Theorem daqmx_final_structure : forall dims rem,
+    (forall d, In d dims -> 0 <= dbytes d) -> 0 <= rem ->
+    exists pre rest,
+      dims = pre ++ rest /\
+      0 <= rem - zsum (map dbytes pre) /\
+      (pre <> [] -> zsum (map dbytes pre) < rem) /\
+      daqmx_buffer_lengths dims rem
+      = map fst pre ++ match rest with
+                       | [] => []
+                       | d :: post => (rem - zsum (map dbytes pre)) / snd d :: map (fun _ => 0) post
+                       end /\
+      match rest with
+      | [] => True
+      | d :: post => rem - zsum (map dbytes pre) <= dbytes d
+      end.
+Proof. exact TruncProofs.daqmx_final_structure. Qed.
+
+Theorem daqmx_final_le : forall dims rem,
+    (forall d, In d dims -> 0 <= fst d /\ 0 < snd d) -> 0 <= rem ->
+    Forall2 (fun len d => 0 <= len <= fst d) (daqmx_buffer_lengths dims rem) dims /\
+    zsum (map (fun p => fst p * snd (snd p)) (combine (daqmx_buffer_lengths dims rem) dims)) <= rem.
+Proof. exact TruncProofs.daqmx_final_le. Qed.
+
+(* ---- A5 ------------------------------------------------------------------- *)
+
+Theorem seg_values_truncated_le : forall o csize total total' n' fin',
+    0 < csize -> 0 <= total' < total -> total mod csize = 0 ->
+    0 <= so_nvals o ->
+    n' = nchunks_of total' csize ->
+    (total' mod csize = 0 -> fin' = None) ->
+    (total' mod csize <> 0 ->
+     exists f, fin' = Some f /\ 0 <= lookup0 (so_path o) f <= so_nvals o) ->
+    seg_values o n' fin' <= seg_values o (total / csize) None /\
+    (so_has_data o = true -> so_nvals o * (total' / csize) <= seg_values o n' fin').
+Proof. exact TruncProofs.seg_values_truncated_le. Qed.
+
+Theorem final_chunk_lengths_le : forall toc inc objs csize rem f o,
+    have_daqmx objs = Ok false ->
+    final_chunk_lengths toc inc objs csize rem = Ok f ->
+    NoDup (map so_path (data_objs objs)) ->
+    (forall o, In o (data_objs objs) -> 0 <= so_nvals o) ->
+    0 <= rem < csize ->
+    In o (data_objs objs) ->
+    0 <= lookup0 (so_path o) f <= so_nvals o.
+Proof. exact TruncProofs.final_chunk_lengths_le. Qed.
+
+Theorem calculate_chunks_truncated_le :
+  forall toc inc inc' objs csize total total' n fin n' fin' o,
+    have_daqmx objs = Ok false ->
+    chunk_size objs = Ok csize -> 0 < csize ->
+    0 <= total' < total -> total mod csize = 0 ->
+    NoDup (map so_path (data_objs objs)) ->
+    (forall o, In o (data_objs objs) -> 0 <= so_nvals o) ->
+    calculate_chunks toc inc objs total = Ok (n, fin) ->
+    calculate_chunks toc inc' objs total' = Ok (n', fin') ->
+    In o (data_objs objs) ->
+    fin = None /\ n = total / csize /\
+    so_nvals o * (total' / csize) <= seg_values o n' fin' <= seg_values o n fin.
+Proof. exact TruncProofs.calculate_chunks_truncated_le. Qed.
+
+(* ---- A6 ------------------------------------------------------------------- *)
+
+Theorem cut_segment_status : forall seg_pos l k,
+    l_next l <> 0xFFFFFFFFFFFFFFFF -> l_raw l <= l_next l ->
+    let dp := seg_pos + 28 + l_raw l in
+    let np := seg_pos + l_next l + 28 in
+    (k < dp -> lead_positions seg_pos l (Some k) = Ok LeadEof) /\
+    (dp <= k ->
+     exists inc, lead_positions seg_pos l (Some k) = Ok (LeadOk dp (Z.min k np) inc) /\
+                 (inc = true <-> dp <= k < np)) /\
+    (forall n, np <= k <= n ->
+               lead_positions seg_pos l (Some k) = lead_positions seg_pos l (Some n) /\
+               lead_positions seg_pos l (Some k) = Ok (LeadOk dp np false)).
+Proof. exact TruncProofs.cut_segment_status. Qed.
+
+Theorem cut_segment_status_unknown : forall seg_pos l k,
+    l_next l = 0xFFFFFFFFFFFFFFFF ->
+    let dp := seg_pos + 28 + l_raw l in
+    (k < dp -> lead_positions seg_pos l (Some k) = Ok LeadEof) /\
+    (dp <= k -> lead_positions seg_pos l (Some k) = Ok (LeadOk dp k true)).
+Proof. exact TruncProofs.cut_segment_status_unknown. Qed.
+
+Theorem md_loop_stops : forall f src is_index fs w src_pos seg_pos prev_seg prev_index st,
+    (blen (read_at src_pos 28 src) < 28 ->
+     md_loop (S f) src is_index fs w src_pos seg_pos prev_seg prev_index st = Ok st) /\
+    (forall l,
+        blen (read_at src_pos 28 src) = 28 ->
+        parse_leadin (read_at src_pos 28 src) = Ok l ->
+        bytes_eqb (l_tag l) (if is_index then TAG_INDEX else TAG_DATA) = true ->
+        lead_positions seg_pos l fs = Ok LeadEof ->
+        md_loop (S f) src is_index fs w src_pos seg_pos prev_seg prev_index st
+        = Ok (set_version st (l_version l)) /\
+        rs_segments (set_version st (l_version l)) = rs_segments st).
+Proof. exact TruncProofs.md_loop_stops. Qed.
+
+(* whole file, every cut offset; [segs_ok] allows the last segment to carry the
+   length-unknown marker (then [open_flag] is true and it is always flagged) *)
+Theorem cut_file_segments : forall segs k w st,
+    segs_ok segs -> 0 <= k <= blen (data_image segs) ->
+    rd_metadata (take k (data_image segs)) false (Some k) w = Ok st ->
+    map seg_summary (rs_segments st) = cut_expected 0 segs k.
+Proof. exact IndexProofs.cut_file_segments. Qed.
+
+Theorem truncation_prefix_partial : forall segs k w st,
+    segs_ok segs -> Forall seg_exact segs ->
+    0 <= k <= blen (data_image segs) ->
+    rd_metadata (take k (data_image segs)) false (Some k) w = Ok st ->
+    map seg_summary (rs_segments st) = cut_expected 0 segs k /\
+    (last_incomplete st = true <->
+     exists i s, nth_error segs i = Some s /\
+                 data_off segs i + 28 + blen (fs_meta s) <= k < data_off segs (S i)) /\
+    (forall gs g, rs_segments st = gs ++ [g] -> Forall (fun x => sg_incomplete x = false) gs).
+Proof. exact IndexProofs.truncation_prefix_partial. Qed.
+
 Print Assumptions read_before_cut_unchanged.
+Print Assumptions truncated_chunk_count.
+Print Assumptions calculate_chunks_count.
+Print Assumptions contig_final_structure.
+Print Assumptions contig_final_le.
+Print Assumptions element_size_positive.
+Print Assumptions interleaved_final_le.
+Print Assumptions interleaved_whole_rows.
+Print Assumptions prop_final_lookup.
+Print Assumptions interleaved_keeps_whole_rows.
+Print Assumptions daqmx_final_structure.
+Print Assumptions daqmx_final_le.
+Print Assumptions seg_values_truncated_le.
+Print Assumptions final_chunk_lengths_le.
+Print Assumptions calculate_chunks_truncated_le.
+Print Assumptions cut_segment_status.
+Print Assumptions cut_segment_status_unknown.
+Print Assumptions md_loop_stops.
+Print Assumptions cut_file_segments.
+Print Assumptions truncation_prefix_partial.
